@@ -5,6 +5,11 @@
 // the writes. Every emitted chunk is decoded independently (vmihailenco/msgpack token by token, fluentlib's reference
 // forwardprotocol.Message, stdlib gzip + encoding/json) and compared with the written sequence.
 //
+// Beyond the single long-lived maker the harness varies: the number of records per chunk across every MessagePack width
+// class of a count (forward/record-count), two or three chunk makers alive at once with their calls interleaved in every
+// order (interleave/*), a restarted chunk maker / ID generator of the same pipeline whose IDs join the set of its
+// predecessor (restart/*), and the production limits pinned from the documentation (forward/production-limits).
+//
 // Build with the overlay produced by overlay.sh (accessors for the unexported fluentdforward limits and the clock seam
 // of the chunk ID generator).
 package main
@@ -96,42 +101,81 @@ type clockMode int
 const (
 	clockFrozen clockMode = iota // every read returns the same instant
 	clockStep                    // every read is 1 ns later than the previous one
+	clockPairs                   // every instant is read twice, then the clock advances by 1 ns (T, T, T+1, T+1, ...)
 	clockReal                    // time.Now
 )
 
-var clockNames = []string{"frozen", "step1ns", "real"}
+var clockNames = []string{"frozen", "step1ns", "pairs", "real"}
 
-var (
-	clockBase  int64 = 1_600_000_000_000_000_000
-	clockCalls int64
-	seamActive bool
-)
+// clk is the state of the installed clock. One function (seamNow) is installed through the seam; the case decides the mode,
+// the base (first reading of the current generator generation) and, for a restart, the gap to the predecessor's last reading.
+var clk struct {
+	mode  clockMode
+	base  int64
+	calls int64 // reads since base was set
+	last  int64 // last reading handed out
+	high  int64 // highest reading ever handed out in this process
+	total int64 // reads since installClock
+}
+
+func init() { clk.high = 1_600_000_000_000_000_000 }
+
+func seamNow() time.Time {
+	v := clk.base
+	switch clk.mode {
+	case clockStep:
+		v += clk.calls
+	case clockPairs:
+		v += clk.calls / 2
+	}
+	clk.calls++
+	clk.total++
+	clk.last = v
+	if v > clk.high {
+		clk.high = v
+	}
+	return time.Unix(0, v)
+}
 
 // installClock makes the generator's clock a function of the case: a base later than anything an earlier case of this
 // process has seen (so the long-lived generator starts every case in the state of a new one: first ID resets the sequence).
-func installClock(m clockMode) {
-	clockBase += clockCalls + 1_000_000
-	clockCalls = 0
-	base := clockBase
-	switch m {
-	case clockFrozen:
-		shared.VerifSetNow(func() time.Time { clockCalls = 1; return time.Unix(0, base) })
-	case clockStep:
-		shared.VerifSetNow(func() time.Time { clockCalls++; return time.Unix(0, base+clockCalls) })
-	default:
+// alignSecond puts the base on a full second (restart cases: "same second" / "next second" must be what they say).
+func installClock(m clockMode, alignSecond bool) {
+	clk.mode = m
+	clk.total = 0
+	if m == clockReal {
 		shared.VerifSetNow(nil)
+		return
 	}
+	b := clk.high + 1_000_000
+	if alignSecond {
+		b = (b/1_000_000_000 + 1) * 1_000_000_000
+	}
+	clk.base, clk.calls, clk.last, clk.high = b, 0, b, b
+	shared.VerifSetNow(seamNow)
 }
 
-// detectSeam reports whether the overlay's clock seam is compiled in (chunk IDs follow the installed clock).
-func detectSeam() bool {
-	shared.VerifSetNow(func() time.Time { return time.Unix(0, 1_234_567_890_123_456_789) })
+// restartClock: the next reading (the first one of the restarted generator) is gap ns after the last reading of its predecessor.
+func restartClock(gap int64) {
+	if clk.mode == clockReal {
+		return
+	}
+	clk.base, clk.calls = clk.last+gap, 0
+}
+
+// detectSeam decides whether the chunk ID clock is under the harness's control. Structural: the overlay's copy of
+// chunkidgen.go is compiled in and says how many clock reads it redirected (shared.VerifSeamSites, set by an init function
+// overlay.sh appends to the copy). Effective: making a chunk reads the installed clock (reads are counted; the text of the
+// ID is not looked at).
+func detectSeam() (sites int, reads int64) {
+	sites = shared.VerifSeamSites()
+	installClock(clockStep, false)
 	defer shared.VerifSetNow(nil)
 	cfg := &datadog.Config{}
 	m := cfg.NewChunkMaker(logger.Root(), "t")
 	m.WriteStream(ddRecord(0, 22))
-	c := m.FlushBuffer()
-	return c != nil && strings.HasPrefix(c.ID, "1234567890123456789")
+	m.FlushBuffer()
+	return sites, clk.total
 }
 
 // ---------------------------------------------------------------------------------------------------------------
@@ -140,8 +184,9 @@ func detectSeam() bool {
 type family struct {
 	kind       string // "ff" | "dd"
 	mode       forwardprotocol.MessageMode
-	maxSize    int // 0 = unlimited
-	maxRecords int // 0 = unlimited
+	maxSize    int  // 0 = unlimited
+	maxRecords int  // 0 = unlimited
+	prod       bool // Forward modes with the limits the package ships with (never touched through the accessor); oracle = the pinned documented values
 	tag        string
 	maker      base.LogChunkMaker
 	match      func(string) bool
@@ -152,17 +197,28 @@ func (f *family) name() string {
 	if f.kind == "dd" {
 		return "datadog"
 	}
+	if f.prod {
+		return fmt.Sprintf("%s/production", f.mode)
+	}
 	return fmt.Sprintf("%s/size%d/rec%d", f.mode, f.maxSize, f.maxRecords)
 }
 
-const ddMaxSize = 5 * 1024 * 1024 // documented: "max uncompressed data size of a LogChunk" (Datadog API limit)
-const ddMaxRecords = 1000         // documented: "max amount of log entries a chunk can hold"
+// Limits pinned from the documentation, NOT read back from the code under test.
+const (
+	ddMaxSize    = 5 * 1024 * 1024 // datadog/config.go: "max uncompressed data size of a LogChunk" (Datadog API limit, 5 MB)
+	ddMaxRecords = 1000            // datadog/config.go: "max amount of log entries a chunk can hold" (Datadog API limit, 1000)
 
-func (f *family) get() base.LogChunkMaker {
-	if f.maker != nil && !f.dirty {
-		return f.maker
-	}
-	f.dirty = false
+	// fluentdforward/config.go documents chunkMaxSizeBytes as "the max uncompressed data size of a LogChunk, not including
+	// necessary headers" that "must be well below Fluentd's Fluent::Plugin::Buffer::DEFAULT_CHUNK_LIMIT_SIZE" (8 MiB, the
+	// linked buffer.rb) because Fluentd inserts non-configurable buffers. /repo's README, DESIGN.md and config_sample.yml
+	// give no number; the value in force at the verified revision, 7 MiB, is pinned here like the Datadog ones, together with
+	// "no record limit" ("Can be 0 in case there's no limit").
+	ffProdMaxSize     = 7 * 1024 * 1024
+	ffProdMaxRecords  = 0
+	fluentdChunkLimit = 8 * 1024 * 1024
+)
+
+func (f *family) newMaker() base.LogChunkMaker {
 	switch f.kind {
 	case "ff":
 		cfg := &fluentdforward.Config{
@@ -173,24 +229,53 @@ func (f *family) get() base.LogChunkMaker {
 		if err := cfg.VerifyConfig(base.MustNewLogSchema([]string{"host", "log"})); err != nil {
 			panic(fmt.Sprintf("harness bug: configuration rejected: %v", err))
 		}
-		pr, ps := fluentdforward.VerifSetChunkLimits(f.maxRecords, f.maxSize) // accessor order: (records, bytes)
-		f.maker = cfg.NewChunkMaker(logger.Root(), f.tag)
-		fluentdforward.VerifSetChunkLimits(pr, ps)
 		f.match = cfg.MatchChunkID
+		if f.prod {
+			f.maxSize, f.maxRecords = ffProdMaxSize, ffProdMaxRecords
+			return cfg.NewChunkMaker(logger.Root(), f.tag)
+		}
+		pr, ps := fluentdforward.VerifSetChunkLimits(f.maxRecords, f.maxSize) // accessor order: (records, bytes)
+		m := cfg.NewChunkMaker(logger.Root(), f.tag)
+		fluentdforward.VerifSetChunkLimits(pr, ps)
+		return m
 	case "dd":
 		cfg := &datadog.Config{Upstream: datadog.UpstreamConfig{Address: "https://localhost/api/v2/logs", HTTPTimeout: time.Second}}
 		if err := cfg.VerifyConfig(base.MustNewLogSchema([]string{"host", "log"})); err != nil {
 			panic(fmt.Sprintf("harness bug: configuration rejected: %v", err))
 		}
-		f.maker = cfg.NewChunkMaker(logger.Root(), f.tag)
 		f.match = cfg.MatchChunkID
 		f.maxSize, f.maxRecords = ddMaxSize, ddMaxRecords
+		return cfg.NewChunkMaker(logger.Root(), f.tag)
 	}
+	panic("harness bug: family kind")
+}
+
+func (f *family) get() base.LogChunkMaker {
+	if f.maker != nil && !f.dirty {
+		return f.maker
+	}
+	f.dirty = false
+	f.maker = f.newMaker()
 	return f.maker
 }
 
+// small / big: a record that fits several times and one that alone exceeds the scaled size limit (Datadog: two plain sizes)
+func (f *family) small() int {
+	if f.kind == "dd" {
+		return 22
+	}
+	return 12
+}
+
+func (f *family) big() int {
+	if f.kind == "dd" {
+		return 100
+	}
+	return ffMax + 1
+}
+
 // ---------------------------------------------------------------------------------------------------------------
-// one run
+// one chunk maker driven within a case
 
 type emitted struct {
 	chunk    *base.LogChunk
@@ -200,61 +285,112 @@ type emitted struct {
 	byFlush  bool
 }
 
-// run drives the chunk maker: write sizes[i], flush after write i where flushAfter(i). Returns a violation or "".
-func (f *family) run(ctx *seq.Ctx, sizes []int, flushAfter func(i int) bool, clock clockMode) (string, string) {
-	maker := f.get()
-	f.dirty = true
-	installClock(clock)
-	defer shared.VerifSetNow(nil)
-	if c := maker.FlushBuffer(); c != nil {
-		return "harness:stale-chunk", "a chunk was pending before the first write of the case"
-	}
-	records := make([][]byte, len(sizes))
-	var chunks []emitted
-	take := func(c *base.LogChunk, after int, byFlush bool) {
-		chunks = append(chunks, emitted{c, append([]byte(nil), c.Data...), c.ID, after, byFlush})
-	}
-	for i, size := range sizes {
-		var rec []byte
-		if f.kind == "dd" {
-			rec = ddRecord(i, size)
-		} else {
-			rec = ffRecord(i, size)
-		}
-		records[i] = rec
-		stream := append([]byte(nil), rec...)
-		if c := maker.WriteStream(stream); c != nil {
-			take(c, i+1, false)
-		}
-		// the caller's stream buffer is the serializer's buffer, reused for the next record: scribble over it
-		for j := range stream {
-			stream[j] = 0xc1
-		}
-		if flushAfter(i) {
-			c := maker.FlushBuffer()
-			if c == nil {
-				return "flush:nothing-returned-with-records-buffered", fmt.Sprintf("FlushBuffer after write %d returned nil although record %d had just been written", i, i)
-			}
-			take(c, i+1, true)
-			if c2 := maker.FlushBuffer(); c2 != nil {
-				return "flush:second-flush-returned-chunk", fmt.Sprintf("a second FlushBuffer after write %d returned another chunk (%d bytes)", i, len(c2.Data))
-			}
-		}
-	}
-	// final flush: everything still buffered must come out now
-	if c := maker.FlushBuffer(); c != nil {
-		take(c, len(sizes), true)
-	}
-	if c := maker.FlushBuffer(); c != nil {
-		return "flush:second-flush-returned-chunk", fmt.Sprintf("a second final FlushBuffer returned another chunk (%d bytes)", len(c.Data))
-	}
+type session struct {
+	f          *family
+	who        string // "" or "maker A: " (prefix of messages when several makers are alive)
+	maker      base.LogChunkMaker
+	records    [][]byte
+	chunks     []emitted
+	sinceFlush int // records written since the last FlushBuffer that emptied the maker
+}
 
-	// ---- decode every chunk (after all writes: chunk data must not alias reused buffers)
+// begin takes the family's long-lived maker for one case. The family stays dirty until the case ends cleanly.
+func (f *family) begin(who string) (*session, string, string) {
+	s := &session{f: f, who: who, maker: f.get()}
+	f.dirty = true
+	if c := s.maker.FlushBuffer(); c != nil {
+		return nil, "harness:stale-chunk", who + "a chunk was pending before the first write of the case"
+	}
+	return s, "", ""
+}
+
+func (s *session) take(c *base.LogChunk, byFlush bool) {
+	s.chunks = append(s.chunks, emitted{c, append([]byte(nil), c.Data...), c.ID, len(s.records), byFlush})
+}
+
+func (s *session) write(size int) {
+	i := len(s.records)
+	var rec []byte
+	if s.f.kind == "dd" {
+		rec = ddRecord(i, size)
+	} else {
+		rec = ffRecord(i, size)
+	}
+	s.records = append(s.records, rec)
+	stream := append([]byte(nil), rec...)
+	c := s.maker.WriteStream(stream)
+	s.sinceFlush++
+	if c != nil {
+		s.take(c, false)
+	}
+	// the caller's stream buffer is the serializer's buffer, reused for the next record: scribble over it
+	for j := range stream {
+		stream[j] = 0xc1
+	}
+}
+
+// flush calls FlushBuffer: a chunk must come out iff a record has been written since the last flush, and a second call
+// right after it must return nothing.
+func (s *session) flush() (string, string) {
+	c := s.maker.FlushBuffer()
+	if s.sinceFlush == 0 {
+		if c != nil {
+			return "flush:second-flush-returned-chunk", fmt.Sprintf("%sFlushBuffer returned a chunk (%d bytes) although nothing was written since the previous flush (%d records written)", s.who, len(c.Data), len(s.records))
+		}
+		return "", ""
+	}
+	if c == nil {
+		return "flush:nothing-returned-with-records-buffered", fmt.Sprintf("%sFlushBuffer after write %d returned nil although record %d had been written since the last flush", s.who, len(s.records)-1, len(s.records)-1)
+	}
+	s.take(c, true)
+	s.sinceFlush = 0
+	if c2 := s.maker.FlushBuffer(); c2 != nil {
+		return "flush:second-flush-returned-chunk", fmt.Sprintf("%sa second FlushBuffer after write %d returned another chunk (%d bytes)", s.who, len(s.records)-1, len(c2.Data))
+	}
+	return "", ""
+}
+
+// finish is the final flush: everything still buffered must come out now (checked by verify: nothing may be missing).
+func (s *session) finish() (string, string) {
+	if c := s.maker.FlushBuffer(); c != nil {
+		s.take(c, true)
+	}
+	s.sinceFlush = 0
+	if c := s.maker.FlushBuffer(); c != nil {
+		return "flush:second-flush-returned-chunk", fmt.Sprintf("%sa second final FlushBuffer returned another chunk (%d bytes)", s.who, len(c.Data))
+	}
+	return "", ""
+}
+
+// idLog remembers the chunk IDs of one pipeline (one tag, one queue directory) across generations of its chunk maker.
+type idLog struct {
+	gen      int
+	seen     map[string][2]int // id -> generation, chunk index
+	prevMax  string            // greatest storage name of the earlier generations
+	curMax   string
+	tolerate bool // the restarted generator's first clock reading EQUALS its predecessor's last one: documentation silent, either answer accepted
+}
+
+func newIDLog() *idLog { return &idLog{seen: map[string][2]int{}} }
+
+func (l *idLog) restart(tolerate bool) {
+	l.gen++
+	if l.curMax > l.prevMax {
+		l.prevMax = l.curMax
+	}
+	l.curMax = ""
+	l.tolerate = tolerate
+}
+
+// verify decodes every chunk of the session (after all writes of the case, of every maker alive: chunk data must not alias
+// reused buffers) and compares with the written sequence.
+func (s *session) verify(ctx *seq.Ctx, ids *idLog) (string, string) {
+	f := s.f
+	records := s.records
 	next := 0 // next input record expected
-	ids := map[string]int{}
-	for ci, e := range chunks {
+	for ci, e := range s.chunks {
 		if !bytes.Equal(e.chunk.Data, e.snapshot) || e.chunk.ID != e.id {
-			return "chunk:mutated-after-emission", fmt.Sprintf("chunk %d (%s) changed after it was returned (buffer reuse)", ci, e.id)
+			return "chunk:mutated-after-emission", fmt.Sprintf("%schunk %d (%s) changed after it was returned (buffer reuse)", s.who, ci, e.id)
 		}
 		var count, payloadBytes int
 		var key, msg string
@@ -264,47 +400,207 @@ func (f *family) run(ctx *seq.Ctx, sizes []int, flushAfter func(i int) bool, clo
 			count, payloadBytes, key, msg = f.checkForwardChunk(e.chunk, records, next)
 		}
 		if key != "" {
-			return key, fmt.Sprintf("chunk %d of %d (id %s, %d bytes, out after write %d): %s", ci, len(chunks), e.id, len(e.chunk.Data), e.after-1, msg)
+			return key, fmt.Sprintf("%schunk %d of %d (id %s, %d bytes, out after write %d): %s", s.who, ci, len(s.chunks), e.id, len(e.chunk.Data), e.after-1, msg)
 		}
 		if count == 0 {
-			return "chunk:empty", fmt.Sprintf("chunk %d (%s) holds no record", ci, e.id)
+			return "chunk:empty", fmt.Sprintf("%schunk %d (%s) holds no record", s.who, ci, e.id)
 		}
 		if next+count > e.after {
-			return "chunk:record-from-the-future", fmt.Sprintf("chunk %d holds records up to %d but only %d had been written", ci, next+count-1, e.after)
+			return "chunk:record-from-the-future", fmt.Sprintf("%schunk %d holds records up to %d but only %d had been written", s.who, ci, next+count-1, e.after)
 		}
 		if e.byFlush && next+count != e.after {
-			return "flush:left-records-buffered", fmt.Sprintf("chunk %d returned by FlushBuffer ends at record %d, but %d records had been written", ci, next+count-1, e.after)
+			return "flush:left-records-buffered", fmt.Sprintf("%schunk %d returned by FlushBuffer ends at record %d, but %d records had been written", s.who, ci, next+count-1, e.after)
 		}
 		// identity
 		if e.id == "" || strings.ContainsAny(e.id, "/\\\x00") || len(e.id) > 255 {
-			return "id:not-a-storage-name", fmt.Sprintf("chunk ID %q cannot be a file name", e.id)
+			return "id:not-a-storage-name", fmt.Sprintf("%schunk ID %q cannot be a file name", s.who, e.id)
 		}
 		if !f.match(e.id) {
-			return "id:rejected-by-MatchChunkID", fmt.Sprintf("chunk ID %q is not recognised by the output's MatchChunkID", e.id)
+			return "id:rejected-by-MatchChunkID", fmt.Sprintf("%schunk ID %q is not recognised by the output's MatchChunkID", s.who, e.id)
 		}
-		if prev, dup := ids[e.id]; dup {
-			return "id:duplicate", fmt.Sprintf("chunks %d and %d share the ID %q (clock %s)", prev, ci, e.id, clockNames[clock])
+		if prev, dup := ids.seen[e.id]; dup {
+			switch {
+			case prev[0] == ids.gen:
+				return "id:duplicate", fmt.Sprintf("%schunks %d and %d share the ID %q (clock %s)", s.who, prev[1], ci, e.id, clockNames[clk.mode])
+			case ids.tolerate:
+				ctx.Groups["cover:restart-at-the-same-clock-reading-repeats-an-id(tolerated)"]++
+			default:
+				return "id:duplicate-across-restart", fmt.Sprintf("%schunk %d of the restarted chunk maker (generation %d) has the ID %q, which chunk %d of generation %d of the same pipeline already carries: same storage name in the same queue directory, the saved chunk is overwritten / one ACK confirms both (clock %s)",
+					s.who, ci, ids.gen, e.id, prev[1], prev[0], clockNames[clk.mode])
+			}
 		}
-		ids[e.id] = ci
+		ids.seen[e.id] = [2]int{ids.gen, ci}
+		if ids.gen > 0 && !ids.tolerate && e.id <= ids.prevMax {
+			return "id:restart-sorts-before-predecessor", fmt.Sprintf("%schunk %d of the restarted chunk maker has the ID %q, which does not sort after %q issued before the restart: recovery takes saved chunks in the order of their storage names (clock %s)",
+				s.who, ci, e.id, ids.prevMax, clockNames[clk.mode])
+		}
+		if e.id > ids.curMax {
+			ids.curMax = e.id
+		}
 		// limits
 		if count > 1 {
 			if f.maxRecords > 0 && count > f.maxRecords {
-				return "limit:records-exceeded", fmt.Sprintf("chunk %d holds %d records, limit %d", ci, count, f.maxRecords)
+				return "limit:records-exceeded", fmt.Sprintf("%schunk %d holds %d records, limit %d", s.who, ci, count, f.maxRecords)
 			}
 			if f.maxSize > 0 && payloadBytes > f.maxSize {
-				return "limit:size-exceeded", fmt.Sprintf("chunk %d holds %d records / %d uncompressed bytes, limit %d", ci, count, payloadBytes, f.maxSize)
+				what := ""
+				if f.prod {
+					what = " (production limits as shipped; documented limit pinned in the harness)"
+				}
+				return "limit:size-exceeded", fmt.Sprintf("%schunk %d holds %d records / %d uncompressed bytes, limit %d%s", s.who, ci, count, payloadBytes, f.maxSize, what)
 			}
 		}
 		if count == 1 && ((f.maxSize > 0 && payloadBytes > f.maxSize) || f.maxRecords == 1) {
 			ctx.Groups["cover:single-record-chunk-at-or-over-limit"]++
 		}
+		if f.kind == "ff" {
+			ctx.Groups["cover:records-per-chunk-"+countClass(count)]++
+		}
 		next += count
 	}
 	if next != len(records) {
-		return "lost-records", fmt.Sprintf("%d records written, the chunks hold only the first %d (after the final FlushBuffer)", len(records), next)
+		return "lost-records", fmt.Sprintf("%s%d records written, the chunks hold only the first %d (after the final FlushBuffer)", s.who, len(records), next)
 	}
-	ctx.Groups[fmt.Sprintf("cover:%d-chunks", min(len(chunks), 6))]++
+	ctx.Groups[fmt.Sprintf("cover:%d-chunks", min(len(s.chunks), 6))]++
+	return "", ""
+}
+
+// countClass names the MessagePack width class of a record count (array header / option.size integer)
+func countClass(n int) string {
+	switch {
+	case n <= 15:
+		return "1..15(fixarray,fixint)"
+	case n <= 127:
+		return "16..127(array16,fixint)"
+	case n <= 255:
+		return "128..255(array16,uint8)"
+	case n <= 65535:
+		return "256..65535(array16,uint16)"
+	}
+	return "65536+(array32,uint32)"
+}
+
+// run drives the family's chunk maker: write sizes[i], flush after write i where flushAfter(i). Returns a violation or "".
+func (f *family) run(ctx *seq.Ctx, sizes []int, flushAfter func(i int) bool, clock clockMode) (string, string) {
+	installClock(clock, false)
+	defer shared.VerifSetNow(nil)
+	s, key, msg := f.begin("")
+	if key != "" {
+		return key, msg
+	}
+	if key, msg := s.drive(sizes, flushAfter); key != "" {
+		return key, msg
+	}
+	if key, msg := s.verify(ctx, newIDLog()); key != "" {
+		return key, msg
+	}
 	f.dirty = false
+	return "", ""
+}
+
+func (s *session) drive(sizes []int, flushAfter func(i int) bool) (string, string) {
+	for i, size := range sizes {
+		s.write(size)
+		if flushAfter(i) {
+			if key, msg := s.flush(); key != "" {
+				return key, msg
+			}
+		}
+	}
+	return s.finish()
+}
+
+// runRestart: the pipeline's chunk maker is driven (sizesA), flushed for good, and REPLACED by a new one of the same
+// configuration (same tag, same ID suffix = same queue directory), as after a restart of the agent or a reload; the new
+// generator's first clock reading is gap ns after the last reading of the old one (real clock: whatever time has passed).
+// The IDs of both generations form one set: unique, and the new ones sort after the old ones.
+func (f *family) runRestart(ctx *seq.Ctx, sizesA []int, maskA uint, sizesB []int, maskB uint, clock clockMode, gap int64) (string, string) {
+	installClock(clock, true)
+	defer shared.VerifSetNow(nil)
+	ids := newIDLog()
+	s1, key, msg := f.begin("generation 0: ")
+	if key != "" {
+		return key, msg
+	}
+	if key, msg := s1.drive(sizesA, func(i int) bool { return maskA&(1<<uint(i)) != 0 }); key != "" {
+		return key, msg
+	}
+	if key, msg := s1.verify(ctx, ids); key != "" {
+		return key, msg
+	}
+	// ---- restart
+	restartClock(gap)
+	ids.restart(clock != clockReal && gap == 0)
+	f.maker, f.dirty = f.newMaker(), false
+	s2, key, msg := f.begin("generation 1 (after the restart): ")
+	if key != "" {
+		return key, msg
+	}
+	if key, msg := s2.drive(sizesB, func(i int) bool { return maskB&(1<<uint(i)) != 0 }); key != "" {
+		return key, msg
+	}
+	if key, msg := s2.verify(ctx, ids); key != "" {
+		return key, msg
+	}
+	// the chunks of generation 0 are still what they were (the new maker shares nothing with the old one)
+	for ci, e := range s1.chunks {
+		if !bytes.Equal(e.chunk.Data, e.snapshot) || e.chunk.ID != e.id {
+			return "chunk:mutated-after-emission", fmt.Sprintf("chunk %d (%s) of generation 0 changed while the restarted maker was working", ci, e.id)
+		}
+	}
+	f.dirty = false
+	return "", ""
+}
+
+// step of an interleaved case: maker index and operation (0 = small record, 1 = big record, 2 = FlushBuffer)
+type ilStep struct{ maker, op int }
+
+// runInterleaved keeps several chunk makers (one per pipeline: own tag) alive at once and alternates their calls in the
+// given order, sequentially. Each maker must behave exactly as if it were alone: the per-maker oracle is unchanged and is
+// evaluated after ALL calls of ALL makers (anything shared between makers - buffers, compressors, encoders, tags - shows as
+// foreign / mutated / misattributed data).
+func runInterleaved(ctx *seq.Ctx, fams []*family, steps []ilStep, clock clockMode) (string, string) {
+	installClock(clock, false)
+	defer shared.VerifSetNow(nil)
+	sessions := make([]*session, len(fams))
+	for i, f := range fams {
+		s, key, msg := f.begin(fmt.Sprintf("maker %c (%s, tag %q): ", 'A'+i, f.name(), f.tag))
+		if key != "" {
+			return key, msg
+		}
+		sessions[i] = s
+	}
+	for _, st := range steps {
+		s := sessions[st.maker]
+		switch st.op {
+		case 0:
+			s.write(s.f.small())
+		case 1:
+			s.write(s.f.big())
+		default:
+			if key, msg := s.flush(); key != "" {
+				return key, msg
+			}
+		}
+	}
+	for _, s := range sessions {
+		if key, msg := s.finish(); key != "" {
+			return key, msg
+		}
+	}
+	touched := 0
+	for _, s := range sessions {
+		if key, msg := s.verify(ctx, newIDLog()); key != "" {
+			return key, msg
+		}
+		if len(s.records) > 0 {
+			touched++
+		}
+	}
+	ctx.Groups[fmt.Sprintf("cover:interleaved-%d-makers-written", touched)]++
+	for _, f := range fams {
+		f.dirty = false
+	}
 	return "", ""
 }
 
@@ -360,7 +656,7 @@ func (f *family) checkForwardChunk(chunk *base.LogChunk, records [][]byte, next 
 		return 0, 0, "malformed:tag", fmt.Sprintf("tag: %v", err)
 	}
 	if tag != f.tag {
-		return 0, 0, "tag:mismatch", fmt.Sprintf("tag %q, configured %q", tag, f.tag)
+		return 0, 0, "tag:mismatch", fmt.Sprintf("tag %q, configured %q", clipS(tag), clipS(f.tag))
 	}
 	c, err := d.PeekCode()
 	if err != nil {
@@ -404,7 +700,7 @@ func (f *family) checkForwardChunk(chunk *base.LogChunk, records [][]byte, next 
 	// option
 	c, err = d.PeekCode()
 	if err != nil || !(codes.IsFixedMap(c) || c == codes.Map16 || c == codes.Map32) {
-		return 0, 0, "malformed:option", fmt.Sprintf("option: code 0x%02x err=%v, want a map", byte(c), err)
+		return 0, 0, "malformed:option", fmt.Sprintf("option: code 0x%02x err=%v, want a map (entries: array=%v, %d events declared)", byte(c), err, entriesAreArray, count)
 	}
 	m, _ := d.DecodeMapLen()
 	optSize, optChunk, optCompressed := -1, "", ""
@@ -434,7 +730,7 @@ func (f *family) checkForwardChunk(chunk *base.LogChunk, records [][]byte, next 
 			}
 			optCompressed = v
 		default:
-			return 0, 0, "option:unknown-key", fmt.Sprintf("option has key %q (Forward protocol v1 knows size, chunk, compressed)", k)
+			return 0, 0, "option:unknown-key", fmt.Sprintf("option has key %q (Forward protocol v1 knows size, chunk, compressed)", clipS(k))
 		}
 	}
 	if r.Len() != 0 {
@@ -483,7 +779,7 @@ func (f *family) checkForwardChunk(chunk *base.LogChunk, records [][]byte, next 
 		return 0, 0, "fluentlib:decode-error", fmt.Sprintf("forwardprotocol.Message: %v", err)
 	}
 	if ref.Tag != f.tag || ref.Option.Chunk != chunk.ID || ref.Option.Size != count || len(ref.Entries) != count {
-		return 0, 0, "fluentlib:mismatch", fmt.Sprintf("forwardprotocol.Message: tag=%q chunk=%q size=%d entries=%d; want %q %q %d %d", ref.Tag, ref.Option.Chunk, ref.Option.Size, len(ref.Entries), f.tag, chunk.ID, count, count)
+		return 0, 0, "fluentlib:mismatch", fmt.Sprintf("forwardprotocol.Message: tag=%q chunk=%q size=%d entries=%d; want %q %q %d %d", clipS(ref.Tag), ref.Option.Chunk, ref.Option.Size, len(ref.Entries), clipS(f.tag), chunk.ID, count, count)
 	}
 	for i, e := range ref.Entries {
 		if e.Time.Unix() != int64(next+i+1) || e.Time.Nanosecond() != len(records[next+i]) {
@@ -491,6 +787,13 @@ func (f *family) checkForwardChunk(chunk *base.LogChunk, records [][]byte, next 
 		}
 	}
 	return count, payloadBytes, "", ""
+}
+
+func clipS(s string) string {
+	if len(s) > 60 {
+		return fmt.Sprintf("%s...(%d bytes)", s[:60], len(s))
+	}
+	return s
 }
 
 var gzReader *gzip.Reader // stdlib decompressor, reused (Reset) between chunks
@@ -558,7 +861,8 @@ func sizesString(sizes []int, mask uint) string {
 }
 
 // forEachSequence enumerates all sequences over menu of length 1..maxLen with all flush masks, in a fixed order.
-func forEachSequence(menu []int, maxLen int, fn func(sizes []int, mask uint) bool) {
+// It returns false if fn asked to stop.
+func forEachSequence(menu []int, maxLen int, fn func(sizes []int, mask uint) bool) bool {
 	for n := 1; n <= maxLen; n++ {
 		idx := make([]int, n)
 		sizes := make([]int, n)
@@ -568,7 +872,7 @@ func forEachSequence(menu []int, maxLen int, fn func(sizes []int, mask uint) boo
 			}
 			for mask := uint(0); mask < 1<<uint(n); mask++ {
 				if !fn(sizes, mask) {
-					return
+					return false
 				}
 			}
 			i := n - 1
@@ -585,26 +889,445 @@ func forEachSequence(menu []int, maxLen int, fn func(sizes []int, mask uint) boo
 			}
 		}
 	}
+	return true
 }
+
+// forEachSteps enumerates all step sequences of length 1..maxLen over nMakers x {small, big, flush}, in a fixed order.
+func forEachSteps(nMakers, maxLen int, fn func(steps []ilStep) bool) bool {
+	alpha := nMakers * 3
+	for n := 1; n <= maxLen; n++ {
+		idx := make([]int, n)
+		steps := make([]ilStep, n)
+		for {
+			for i, x := range idx {
+				steps[i] = ilStep{x / 3, x % 3}
+			}
+			if !fn(steps) {
+				return false
+			}
+			i := n - 1
+			for i >= 0 {
+				idx[i]++
+				if idx[i] < alpha {
+					break
+				}
+				idx[i] = 0
+				i--
+			}
+			if i < 0 {
+				break
+			}
+		}
+	}
+	return true
+}
+
+func stepsString(fams []*family, steps []ilStep) string {
+	var sb strings.Builder
+	for i, st := range steps {
+		if i > 0 {
+			sb.WriteByte('.')
+		}
+		sb.WriteByte(byte('A' + st.maker))
+		switch st.op {
+		case 0:
+			fmt.Fprintf(&sb, "%d", fams[st.maker].small())
+		case 1:
+			fmt.Fprintf(&sb, "%d", fams[st.maker].big())
+		default:
+			sb.WriteByte('F')
+		}
+	}
+	return sb.String()
+}
+
+var modes = []forwardprotocol.MessageMode{forwardprotocol.ModeForward, forwardprotocol.ModePackedForward, forwardprotocol.ModeCompressedPackedForward}
+
+const tag = "verif.tag"
 
 func enumerate(ctx *seq.Ctx) {
 	thorough := ctx.Thorough()
-	seamActive = detectSeam()
+
+	// ---- the clock seam: structural (compiled in?) + effective (is the installed clock read?)
+	sites, reads := detectSeam()
+	seamActive := sites > 0 && reads > 0
+	ctx.Group("seam")
+	ctx.Case("seam/chunk-id-clock", true, "seam/chunk-id-clock", func() (string, string) {
+		if !seamActive {
+			return "seam-blind", fmt.Sprintf("the clock seam of the chunk ID generator is expected (overlay.sh is part of the build) but not effective: %d time.Now() call sites of output/shared/chunkidgen.go were redirected in the compiled copy, %d reads of the installed clock were observed while a chunk was made. "+
+				"The generator reads its clock in a way overlay.sh does not recognise: the frozen / +1ns / pairs clock dimension and the controlled restart gaps cannot be enumerated (only the real clock is exercised)", sites, reads)
+		}
+		return "", ""
+	})
 	if seamActive {
-		ctx.Note("clock", "chunk ID clock controlled through the overlay seam (frozen / +1ns per read / real)")
+		ctx.Note("clock", fmt.Sprintf("chunk ID clock controlled through the overlay seam (%d call site(s) redirected, reads observed): frozen / +1ns per read / pairs / real", sites))
 	} else {
-		ctx.Note("clock", "clock seam NOT compiled in (build without overlay.sh's chunkidgen copy): only the real clock is exercised")
+		ctx.Note("clock", fmt.Sprintf("clock seam NOT effective (%d call sites redirected, %d reads observed): key seam-blind reported, only the real clock is exercised", sites, reads))
 	}
-	clocksAll := []clockMode{clockFrozen, clockStep, clockReal}
+	clocksAll := []clockMode{clockFrozen, clockStep, clockPairs, clockReal}
 	if !seamActive {
 		clocksAll = []clockMode{clockReal}
 	}
-	modes := []forwardprotocol.MessageMode{forwardprotocol.ModeForward, forwardprotocol.ModePackedForward, forwardprotocol.ModeCompressedPackedForward}
+
+	// The small groups, each the ONLY coverage of something (real sizes, gzip at size, Datadog accounting, width classes of
+	// counts, restart, several makers), come first; the big scaled product comes last: a deadline cut can then only shorten
+	// the product.
+	enumProduction(ctx, thorough, clocksAll)
+	enumDatadog(ctx, thorough, clocksAll)
+	enumTags(ctx, clocksAll)
+	enumRecordCount(ctx, thorough, clocksAll)
+	enumRestart(ctx, thorough, clocksAll)
+	enumInterleaved(ctx, thorough, clocksAll)
+	enumIndependence(ctx, clocksAll)
+	enumScaledProduct(ctx, thorough, clocksAll)
+}
+
+func maskFn(mask uint) func(int) bool { return func(i int) bool { return mask&(1<<uint(i)) != 0 } }
+
+// ---- Forward modes with the limits the package ships with; the oracle uses the documented values pinned in the harness
+func enumProduction(ctx *seq.Ctx, thorough bool, clocksAll []clockMode) {
+	ctx.Group("forward/production-limits")
+	ctx.Case("prod/limit-values", true, "prod/limit-values", func() (string, string) {
+		// observation of the code under test, compared with the pinned documentation (not used as the oracle of anything)
+		rec, size := fluentdforward.VerifSetChunkLimits(1, 1)
+		fluentdforward.VerifSetChunkLimits(rec, size)
+		if size <= 0 || size > ffProdMaxSize {
+			return "limit:production-size-above-documented", fmt.Sprintf("fluentdforward chunkMaxSizeBytes = %d (0 = unlimited); documented: max uncompressed data size of a chunk %d (7 MiB), which must stay well below Fluentd's DEFAULT_CHUNK_LIMIT_SIZE of %d (8 MiB)", size, ffProdMaxSize, fluentdChunkLimit)
+		}
+		if size < ffProdMaxSize || rec != ffProdMaxRecords {
+			// stricter than documented: chunks are closed earlier than necessary, which the statement allows
+			ctx.Groups["cover:production-limits-stricter-than-documented(accepted)"]++
+		}
+		return "", ""
+	})
+	const P = ffProdMaxSize
+	prodSizes := []int{12, 1<<20 + 1, P / 2, P - 1, P, P + 1}
+	prodLen := 2
+	if thorough {
+		prodLen = 3
+	}
+	for _, mode := range modes {
+		fam := &family{kind: "ff", mode: mode, prod: true, tag: tag}
+		forEachSequence(prodSizes, prodLen, func(sizes []int, mask uint) bool {
+			if ctx.Stop() {
+				return false
+			}
+			if !ctx.Mine() {
+				ctx.Skip()
+				return true
+			}
+			id := fmt.Sprintf("prod/%s/%s", mode, sizesString(sizes, mask))
+			sz := append([]int(nil), sizes...)
+			ctx.Case(id, len(sz) > 1, id, func() (string, string) {
+				return fam.run(ctx, sz, maskFn(mask), clocksAll[0])
+			})
+			return true
+		})
+	}
+}
+
+// ---- Datadog: limits are constants (5 MiB uncompressed, 1000 records)
+func enumDatadog(ctx *seq.Ctx, thorough bool, clocksAll []clockMode) {
+	dd := &family{kind: "dd", tag: "ddtag"}
+	const M = ddMaxSize
+	ddSizes := []int{22, M/2 - 2, M/2 - 1, M - 3, M - 2, M - 1, M + 1, 2 * M}
+	ddLen := 2
+	if thorough {
+		ddLen = 3
+	}
+	ctx.Group("datadog/size-limit")
+	forEachSequence(ddSizes, ddLen, func(sizes []int, mask uint) bool {
+		if ctx.Stop() {
+			return false
+		}
+		if !ctx.Mine() {
+			ctx.Skip()
+			return true
+		}
+		id := fmt.Sprintf("datadog/%s", sizesString(sizes, mask))
+		sz := append([]int(nil), sizes...)
+		ctx.Case(id, len(sz) > 1, id, func() (string, string) {
+			return dd.run(ctx, sz, maskFn(mask), clocksAll[0])
+		})
+		return true
+	})
+	// record limit: N tiny records with one optional flush position. The real clock comes last: the long-lived generator
+	// must not see the clock step back to the seam's epoch.
+	ctx.Group("datadog/record-limit")
+	for _, clock := range clocksAll {
+		for _, n := range []int{999, 1000, 1001, 2000, 2001} {
+			for _, tiny := range []int{22, 100} {
+				for _, flushAt := range []int{-1, 0, 1, 499, 998, 999, 1000, 1001, 1999} {
+					if flushAt >= n {
+						continue
+					}
+					if !ctx.Mine() {
+						ctx.Skip()
+						continue
+					}
+					id := fmt.Sprintf("datadog/%dx%d/flush-after-%d/%s", n, tiny, flushAt, clockNames[clock])
+					sz := make([]int, n)
+					for i := range sz {
+						sz[i] = tiny
+					}
+					flushAt, clock := flushAt, clock
+					ctx.Case(id, true, id, func() (string, string) {
+						return dd.run(ctx, sz, func(i int) bool { return i == flushAt }, clock)
+					})
+				}
+			}
+		}
+	}
+}
+
+// ---- tags on both sides of the msgpack string header boundaries
+func enumTags(ctx *seq.Ctx, clocksAll []clockMode) {
+	ctx.Group("forward/tags")
+	for _, tl := range []int{1, 31, 32, 255, 256, 65535, 65536} {
+		for _, mode := range modes {
+			fam := &family{kind: "ff", mode: mode, maxSize: ffMax, maxRecords: 2, tag: strings.Repeat("t", tl)}
+			forEachSequence(ffSizes, 2, func(sizes []int, mask uint) bool {
+				id := fmt.Sprintf("tag%d/%s/%s", tl, mode, sizesString(sizes, mask))
+				sz := append([]int(nil), sizes...)
+				ctx.Case(id, true, id, func() (string, string) {
+					return fam.run(ctx, sz, maskFn(mask), clocksAll[0])
+				})
+				return true
+			})
+		}
+	}
+}
+
+// ---- record COUNT per chunk on both sides of every MessagePack width class of a count: the entries array header of the
+// Forward mode (fixarray <= 15, array16 <= 65535, array32) and the integer of option.size in all modes (fixint <= 127,
+// uint8 <= 255, uint16 <= 65535, uint32). N records of 12 bytes; the chunk is cut by the final flush (N records), by a flush
+// after the first record (1 + N-1), by a flush before the last one (N-1 + 1), by a record limit of N-1 and by a size limit
+// of 12*(N-1) (roll-over: N-1 + 1), and never under the production limits (7 MiB hold 611 669 such records).
+func enumRecordCount(ctx *seq.Ctx, thorough bool, clocksAll []clockMode) {
+	ctx.Group("forward/record-count")
+	counts := []int{15, 16, 17, 127, 128, 129, 255, 256, 257, 65535, 65536, 65537}
+	if thorough {
+		counts = append(counts, 31, 32, 33, 4095, 4096, 131071, 131072, 600000)
+	}
+	for _, mode := range modes {
+		unlimited := &family{kind: "ff", mode: mode, maxSize: 0, maxRecords: 0, tag: tag}
+		prod := &family{kind: "ff", mode: mode, prod: true, tag: tag}
+		for _, n := range counts {
+			variants := []struct {
+				name string
+				fam  *family
+			}{
+				{"unlimited", unlimited},
+				{"production", prod},
+				{"rec-limit", &family{kind: "ff", mode: mode, maxSize: 0, maxRecords: n - 1, tag: tag}},
+				{"size-limit", &family{kind: "ff", mode: mode, maxSize: 12 * (n - 1), maxRecords: 0, tag: tag}},
+			}
+			for _, v := range variants {
+				for _, flushAt := range []int{-1, 0, n - 2} {
+					if ctx.Stop() {
+						return
+					}
+					if !ctx.Mine() {
+						ctx.Skip()
+						continue
+					}
+					id := fmt.Sprintf("count/%s/%s/%dx12/flush-after-%d", mode, v.name, n, flushAt)
+					fam, flushAt, n := v.fam, flushAt, n
+					ctx.Case(id, true, id, func() (string, string) {
+						sz := make([]int, n)
+						for i := range sz {
+							sz[i] = 12
+						}
+						return fam.run(ctx, sz, func(i int) bool { return i == flushAt }, clocksAll[0])
+					})
+				}
+			}
+		}
+	}
+}
+
+// ---- restart: a second chunk maker / ID generator of the same pipeline while the IDs of the first are remembered
+func enumRestart(ctx *seq.Ctx, thorough bool, clocksAll []clockMode) {
+	type gapT struct {
+		name string
+		ns   int64
+	}
+	seamGaps := []gapT{{"same-reading", 0}, {"+1ns", 1}, {"+1us", 1000}, {"same-second", 900_000_000}, {"next-second", 1_000_000_000}, {"+1h", 3_600_000_000_000}}
+	realGaps := []gapT{{"at-once", 0}}
+	fams := []*family{
+		{kind: "ff", mode: forwardprotocol.ModeForward, maxSize: ffMax, maxRecords: 2, tag: tag},
+		{kind: "ff", mode: forwardprotocol.ModePackedForward, maxSize: ffMax, maxRecords: 0, tag: tag},
+		{kind: "ff", mode: forwardprotocol.ModeCompressedPackedForward, maxSize: ffMax, maxRecords: 2, tag: tag},
+		{kind: "dd", tag: "ddtag"},
+	}
+	for _, fam := range fams {
+		cheap := fam.kind == "ff" && fam.mode != forwardprotocol.ModeCompressedPackedForward
+		two := []int{fam.small(), fam.big()}
+		menuA, lenA := two, 2
+		if cheap {
+			menuA = ffSizes
+			if thorough {
+				lenA = 3
+			}
+		}
+		for _, clock := range clocksAll { // the real clock is last
+			gaps := seamGaps
+			if clock == clockReal {
+				gaps = realGaps
+			}
+			for _, gap := range gaps {
+				ctx.Group(fmt.Sprintf("restart/%s/clock-%s", fam.name(), clockNames[clock]))
+				ok := forEachSequence(menuA, lenA, func(sizesA []int, maskA uint) bool {
+					return forEachSequence(two, 2, func(sizesB []int, maskB uint) bool {
+						if ctx.Stop() {
+							return false
+						}
+						if !ctx.Mine() {
+							ctx.Skip()
+							return true
+						}
+						id := fmt.Sprintf("restart/%s/%s/%s/%s|%s", fam.name(), clockNames[clock], gap.name, sizesString(sizesA, maskA), sizesString(sizesB, maskB))
+						szA, szB := append([]int(nil), sizesA...), append([]int(nil), sizesB...)
+						fam, clock, gap := fam, clock, gap
+						ctx.Case(id, true, id, func() (string, string) {
+							return fam.runRestart(ctx, szA, maskA, szB, maskB, clock, gap.ns)
+						})
+						return true
+					})
+				})
+				if !ok {
+					return
+				}
+			}
+		}
+	}
+}
+
+// ---- two or three chunk makers alive at once, calls interleaved in every order
+func enumInterleaved(ctx *seq.Ctx, thorough bool, clocksAll []clockMode) {
+	clock := clocksAll[0]
+	if len(clocksAll) > 1 {
+		clock = clockStep // every ID of every maker distinct
+	}
+	mk := ilFamily
+	combos := []string{
+		"FF", "FP", "PP", "FC", "FD", "PC", "PD", "CC", "CD", "DD", // every unordered pair of kinds
+		"FFF", "PPP", "CCC", "DDD", "FPC", "FPD", "FCD", "PCD",
+	}
+	for _, combo := range combos {
+		cheap := !strings.ContainsAny(combo, "CD")
+		depth := 4
+		if cheap {
+			depth = 5
+		}
+		if len(combo) == 3 {
+			depth--
+		}
+		if thorough {
+			depth++
+		}
+		fams := make([]*family, len(combo))
+		for i := range combo {
+			fams[i] = mk(combo[i], i)
+		}
+		ctx.Group("interleave/" + combo)
+		ok := forEachSteps(len(fams), depth, func(steps []ilStep) bool {
+			if ctx.Stop() {
+				return false
+			}
+			if !ctx.Mine() {
+				ctx.Skip()
+				return true
+			}
+			id := fmt.Sprintf("interleave/%s/%s", combo, stepsString(fams, steps))
+			st := append([]ilStep(nil), steps...)
+			makers := map[int]bool{}
+			for _, s := range st {
+				makers[s.maker] = true
+			}
+			ctx.Case(id, len(makers) > 1, id, func() (string, string) {
+				return runInterleaved(ctx, fams, st, clock)
+			})
+			return true
+		})
+		if !ok {
+			return
+		}
+	}
+}
+
+// ilFamily makes the family of one maker of an interleaved case: kind F / P / C (Forward modes, limits 64 bytes / 2 records)
+// or D (Datadog); every slot has its own tag of its own length.
+func ilFamily(kind byte, slot int) *family {
+	tags := []string{"verif.A", "verif.BB", "verif.CCC"}
+	switch kind {
+	case 'F':
+		return &family{kind: "ff", mode: forwardprotocol.ModeForward, maxSize: ffMax, maxRecords: 2, tag: tags[slot]}
+	case 'P':
+		return &family{kind: "ff", mode: forwardprotocol.ModePackedForward, maxSize: ffMax, maxRecords: 2, tag: tags[slot]}
+	case 'C':
+		return &family{kind: "ff", mode: forwardprotocol.ModeCompressedPackedForward, maxSize: ffMax, maxRecords: 2, tag: tags[slot]}
+	}
+	return &family{kind: "dd", tag: tags[slot]}
+}
+
+// ---- independence of two live chunk makers on the object graph (see alias.go): no writable buffer / encoder / compressor
+// is reachable from both. Every unordered pair of kinds x the state of each maker {a chunk just opened, a chunk opened after
+// an earlier one was flushed}; the usual per-maker oracle runs on top.
+func enumIndependence(ctx *seq.Ctx, clocksAll []clockMode) {
+	ctx.Group("independence")
+	clock := clocksAll[0]
+	if len(clocksAll) > 1 {
+		clock = clockStep
+	}
+	for _, combo := range []string{"FF", "FP", "PP", "FC", "FD", "PC", "PD", "CC", "CD", "DD"} {
+		for state := 0; state < 4; state++ {
+			id := fmt.Sprintf("independence/%s/%s+%s", combo, []string{"first-chunk", "later-chunk"}[state&1], []string{"first-chunk", "later-chunk"}[state>>1])
+			combo, state := combo, state
+			ctx.Case(id, true, id, func() (string, string) {
+				installClock(clock, false)
+				defer shared.VerifSetNow(nil)
+				fams := []*family{ilFamily(combo[0], 0), ilFamily(combo[1], 1)}
+				var ss []*session
+				for i, f := range fams {
+					s, key, msg := f.begin(fmt.Sprintf("maker %c (%s, tag %q): ", 'A'+i, f.name(), f.tag))
+					if key != "" {
+						return key, msg
+					}
+					s.write(f.small())
+					if (state>>uint(i))&1 == 1 {
+						if key, msg := s.flush(); key != "" {
+							return key, msg
+						}
+						s.write(f.small())
+					}
+					ss = append(ss, s)
+				}
+				// both makers hold an open chunk now: compressor, buffers and encoder are all reachable
+				if what := sharedWritable(ss[0].maker, ss[1].maker); what != "" {
+					return "makers:share-writable-state", fmt.Sprintf("two live chunk makers (%s tag %q, %s tag %q) of different pipelines write through the same object: %s. Pipelines run in parallel without a lock around WriteStream / FlushBuffer, so both goroutines write there at once and the chunks of both are corrupted whenever two calls overlap",
+						fams[0].name(), fams[0].tag, fams[1].name(), fams[1].tag, what)
+				}
+				for _, s := range ss {
+					if key, msg := s.finish(); key != "" {
+						return key, msg
+					}
+				}
+				for _, s := range ss {
+					if key, msg := s.verify(ctx, newIDLog()); key != "" {
+						return key, msg
+					}
+				}
+				return "", ""
+			})
+		}
+	}
+}
+
+// ---- Forward modes: every sequence x every flush placement x limits x clocks (limits scaled to 64 bytes / 0..3 records)
+func enumScaledProduct(ctx *seq.Ctx, thorough bool, clocksAll []clockMode) {
 	type limit struct{ size, records int }
 	limits := []limit{{ffMax, 0}, {ffMax, 1}, {ffMax, 2}, {ffMax, 3}, {0, 0}, {0, 2}}
-	const tag = "verif.tag"
-
-	// ---- Forward modes: every sequence x every flush placement x limits x clocks
 	for _, mode := range modes {
 		compressed := mode == forwardprotocol.ModeCompressedPackedForward
 		for _, lim := range limits {
@@ -635,7 +1358,7 @@ func enumerate(ctx *seq.Ctx) {
 					maxLen = 2
 				}
 				ctx.Group(fmt.Sprintf("%s/clock-%s", fam.name(), clockNames[clock]))
-				forEachSequence(ffSizes, maxLen, func(sizes []int, mask uint) bool {
+				ok := forEachSequence(ffSizes, maxLen, func(sizes []int, mask uint) bool {
 					if ctx.Stop() {
 						return false
 					}
@@ -647,112 +1370,16 @@ func enumerate(ctx *seq.Ctx) {
 					sz := append([]int(nil), sizes...)
 					clock := clock
 					ctx.Case(id, len(sz) > 1, id, func() (string, string) {
-						return fam.run(ctx, sz, func(i int) bool { return mask&(1<<uint(i)) != 0 }, clock)
+						return fam.run(ctx, sz, maskFn(mask), clock)
 					})
 					return true
 				})
-			}
-		}
-	}
-
-	// ---- tags on both sides of the msgpack string header boundaries
-	ctx.Group("forward/tags")
-	for _, tl := range []int{1, 31, 32, 255, 256, 65536} {
-		for _, mode := range modes {
-			fam := &family{kind: "ff", mode: mode, maxSize: ffMax, maxRecords: 2, tag: strings.Repeat("t", tl)}
-			forEachSequence(ffSizes, 2, func(sizes []int, mask uint) bool {
-				id := fmt.Sprintf("tag%d/%s/%s", tl, mode, sizesString(sizes, mask))
-				sz := append([]int(nil), sizes...)
-				ctx.Case(id, true, id, func() (string, string) {
-					return fam.run(ctx, sz, func(i int) bool { return mask&(1<<uint(i)) != 0 }, clocksAll[0])
-				})
-				return true
-			})
-		}
-	}
-
-	// ---- Forward modes with the production limits (read back through the accessor; documented: 7 MiB, no record limit)
-	prodRecords, prodSize := fluentdforward.VerifSetChunkLimits(1, 1)
-	fluentdforward.VerifSetChunkLimits(prodRecords, prodSize)
-	ctx.Note("fluentdforward production limits", fmt.Sprintf("chunkMaxSizeBytes=%d chunkMaxRecords=%d", prodSize, prodRecords))
-	if prodSize > 1<<20 && prodSize < 1<<28 {
-		ctx.Group("forward/production-limits")
-		prodSizes := []int{12, 1<<20 + 1, prodSize / 2, prodSize - 1, prodSize, prodSize + 1}
-		prodLen := 2
-		if thorough {
-			prodLen = 3
-		}
-		for _, mode := range modes {
-			fam := &family{kind: "ff", mode: mode, maxSize: prodSize, maxRecords: prodRecords, tag: tag}
-			forEachSequence(prodSizes, prodLen, func(sizes []int, mask uint) bool {
-				if ctx.Stop() {
-					return false
-				}
-				if !ctx.Mine() {
-					ctx.Skip()
-					return true
-				}
-				id := fmt.Sprintf("prod/%s/%s", mode, sizesString(sizes, mask))
-				sz := append([]int(nil), sizes...)
-				ctx.Case(id, len(sz) > 1, id, func() (string, string) {
-					return fam.run(ctx, sz, func(i int) bool { return mask&(1<<uint(i)) != 0 }, clocksAll[0])
-				})
-				return true
-			})
-		}
-	}
-
-	// ---- Datadog: limits are constants (5 MiB uncompressed, 1000 records)
-	dd := &family{kind: "dd", tag: "ddtag"}
-	const M = ddMaxSize
-	ddSizes := []int{22, M/2 - 2, M/2 - 1, M - 3, M - 2, M - 1, M + 1, 2 * M}
-	ddLen := 2
-	if thorough {
-		ddLen = 3
-	}
-	ctx.Group("datadog/size-limit")
-	forEachSequence(ddSizes, ddLen, func(sizes []int, mask uint) bool {
-		if ctx.Stop() {
-			return false
-		}
-		if !ctx.Mine() {
-			ctx.Skip()
-			return true
-		}
-		id := fmt.Sprintf("datadog/%s", sizesString(sizes, mask))
-		sz := append([]int(nil), sizes...)
-		ctx.Case(id, len(sz) > 1, id, func() (string, string) {
-			return dd.run(ctx, sz, func(i int) bool { return mask&(1<<uint(i)) != 0 }, clocksAll[0])
-		})
-		return true
-	})
-	// record limit: N tiny records with one optional flush position
-	ctx.Group("datadog/record-limit")
-	for _, n := range []int{999, 1000, 1001, 2000, 2001} {
-		for _, tiny := range []int{22, 100} {
-			for _, flushAt := range []int{-1, 0, 1, 499, 998, 999, 1000, 1001, 1999} {
-				if flushAt >= n {
-					continue
-				}
-				for _, clock := range clocksAll {
-					if !ctx.Mine() {
-						ctx.Skip()
-						continue
-					}
-					id := fmt.Sprintf("datadog/%dx%d/flush-after-%d/%s", n, tiny, flushAt, clockNames[clock])
-					sz := make([]int, n)
-					for i := range sz {
-						sz[i] = tiny
-					}
-					flushAt, clock := flushAt, clock
-					ctx.Case(id, true, id, func() (string, string) {
-						return dd.run(ctx, sz, func(i int) bool { return i == flushAt }, clock)
-					})
+				if !ok {
+					return
 				}
 			}
 		}
 	}
-	// the same boundary for the Forward modes with the real (unscaled) limits is covered by the scaled product above
 }
 
 func main() {
@@ -762,21 +1389,29 @@ func main() {
 		Level:    "exploration",
 		Rule: "every sequence of 1..5 (quick) / 1..6 (thorough) record sizes from {12 (smallest Forward event), 32, 63, 64, 65, 128} x every subset of FlushBuffer calls after the writes (2^n) through the real " +
 			"fluentdforward Config.NewChunkMaker in modes Forward, PackedForward, CompressedPackedForward with chunkMaxSizeBytes/chunkMaxRecords scaled through an overlay accessor to " +
-			"(64,0) (64,1) (64,2) (64,3) (0=unlimited,0) (0,2), chunk ID clock frozen (full depth) and +1ns-per-read / real (depth 3 quick, 6 thorough); the gzip mode, whose per-chunk compressor makes a case ~100x dearer, " +
-			"runs depth 4 for limits (64,0) (64,2), 3 for the others, 2 for the other clocks (quick) / 5, other clocks 4 (thorough); tags of 1,31,32,255,256,65536 bytes; the production limits (7 MiB, no record limit) with sequences of 1..2 (quick) / 1..3 (thorough) sizes from {12, 1 MiB+1, max/2, max-1, max, max+1}; " +
+			"(64,0) (64,1) (64,2) (64,3) (0=unlimited,0) (0,2), chunk ID clock frozen (full depth) and +1ns-per-read / pairs (T,T,T+1,T+1..) / real (depth 3 quick, 6 thorough); the gzip mode, whose per-chunk compressor makes a case ~100x dearer, " +
+			"runs depth 4 for limits (64,0) (64,2), 3 for the others, 2 for the other clocks (quick) / 5, other clocks 4 (thorough); tags of 1,31,32,255,256,65535,65536 bytes; " +
+			"the limits the package ships with (never touched; oracle = documented 7 MiB / no record limit pinned in the harness, plus one case comparing the shipped values with them) with sequences of 1..2 (quick) / 1..3 (thorough) sizes from {12, 1 MiB+1, 3.5 MiB, 7 MiB-1, 7 MiB, 7 MiB+1}; " +
+			"record COUNT per chunk: N x 12-byte records, N in {15,16,17,127,128,129,255,256,257,65535,65536,65537} (thorough also 31,32,33,4095,4096,131071,131072,600000) x 3 modes x {unlimited, production limits, record limit N-1, size limit 12(N-1)} x flush {none, after the first, before the last record}; " +
+			"restart: sequences A (1..2 sizes; Forward/PackedForward from the 6 sizes, thorough 1..3) x flushes, then a NEW chunk maker of the same configuration and tag, then sequences B (1..2 sizes from {small,big}) x flushes, x clock {frozen, +1ns, pairs} x first reading of the new generator {0, 1 ns, 1 us, 0.9 s (same second), 1 s (next second), 1 h} after the last reading of the old one, and the real clock restarted at once; families Forward(64,2) PackedForward(64,0) CompressedPackedForward(64,2) Datadog; " +
+			"interleaving: 2 or 3 chunk makers alive at once (own tags; every unordered pair of {Forward, PackedForward, Compressed, Datadog} and the triples FFF PPP CCC DDD FPC FPD FCD PCD), every sequence of 1..5 (pairs) / 1..4 (triples) steps (one less with a gzip kind; thorough one more) over maker x {small record, big record, FlushBuffer}; " +
 			"Datadog chunk maker (constant limits 5 MiB / 1000 records): sequences of 1..2 (quick) / 1..3 (thorough) sizes from {22, M/2-2, M/2-1, M-3, M-2, M-1, M+1, 2M} x 2^n flush subsets, and 999/1000/1001/2000/2001 records of 22/100 bytes x 9 flush positions x clocks. " +
-			"Oracle per run: each chunk decodes (msgpack token by token + fluentlib forwardprotocol.Message; stdlib gzip + encoding/json), tag, mode shape, option.size = records held, option.chunk = LogChunk.ID, ID accepted by MatchChunkID, usable as a file name and unique, " +
-			"payload bytes = the written records in order across chunks with nothing left after the final flush, FlushBuffer returns exactly everything buffered (nil iff nothing), chunk data stable after later writes, size/record limit exceeded only by a single-record chunk; " +
-			"non-trivial = at least two records",
+			"Oracle per maker and run: each chunk decodes (msgpack token by token + fluentlib forwardprotocol.Message; stdlib gzip + encoding/json), tag, mode shape, option.size = records held, option.chunk = LogChunk.ID, ID accepted by MatchChunkID, usable as a file name and unique (across a restart too, where the new IDs also sort after the old ones), " +
+			"payload bytes = the written records in order across chunks with nothing left after the final flush, FlushBuffer returns exactly everything buffered (nil iff nothing written since the last flush), chunk data stable after later calls of any maker, size/record limit exceeded only by a single-record chunk; " +
+			"the clock seam must be compiled in and read (key seam-blind otherwise); non-trivial = at least two records (interleaving: at least two makers used)",
 		Assumptions: []string{
 			"Forward events must be valid MessagePack, so the smallest record is 12 bytes ([EventTime, {}]) instead of 1; sizes are relative to the scaled limit 64",
 			"chunkMaxRecords = 0 and chunkMaxSizeBytes = 0 mean 'no limit' (config.go comment: 'Can be 0 in case there's no limit')",
 			"the size limit is on the uncompressed record data of a chunk (config.go comments), for Datadog on the whole JSON array; a chunk may be closed earlier than necessary (the statement only bounds chunks from above)",
-			"the chunk maker is long-lived per configuration (as in a pipeline); every case starts after a completed flush with a clock later than any earlier case, which puts the ID generator in the state of a new one; IDs must be unique within a run",
+			"production limits of the Forward output: /repo's README, DESIGN.md and config_sample.yml give no number; config.go documents 'max uncompressed data size ... must be well below Fluentd's DEFAULT_CHUNK_LIMIT_SIZE' (8 MiB) and 'can be 0 in case there's no limit'; the harness pins 7 MiB / no record limit (the values of the verified revision) as the oracle; shipped values stricter than that are accepted (chunks closed earlier), larger ones are a violation",
+			"the chunk maker is long-lived per configuration (as in a pipeline); every case starts after a completed flush with a clock later than any earlier case, which puts the ID generator in the state of a new one; IDs must be unique within a run and across a restart of the chunk maker of the same pipeline (same tag, same ID suffix = same queue directory)",
+			"restart: a restarted generator whose FIRST clock reading EQUALS the last reading of its predecessor (not 1 ns more) repeats the predecessor's ID; an advancing nanosecond clock cannot produce that and the documentation is silent, so this single point is enumerated but either answer is accepted (cover:restart-at-the-same-clock-reading-repeats-an-id(tolerated))",
+			"IDs of different pipelines (different tags = different queue directories) may coincide; no uniqueness is demanded across the makers of an interleaved case",
+			"several chunk makers are interleaved sequentially from one goroutine: state shared between makers is visible only if it persists between two calls; data races between goroutines inside one call are outside a sequential harness",
 			"clock stepping backwards is outside the stated domain (frozen / advancing) and is not enumerated",
 		},
 		Enumerate:        enumerate,
-		QuickDeadline:    110 * time.Second,
+		QuickDeadline:    20 * time.Minute,
 		ThoroughDeadline: 45 * time.Minute,
 	})
 }
